@@ -3017,6 +3017,23 @@ def c10_apply(idnt, caller, op):
                     r = md.model(params, x)
                     out["aliases_arg"] = _shares(r, x)
                 out["ret"] = digest_array(np.asarray(r))
+                if op.get("again_edit") and isinstance(op["x"], dict) \
+                        and op["x"].get("slot") in caller.slots:
+                    # the caller edits its abscissa array in place and asks
+                    # again right away (same parameters)
+                    mutate_held(caller.slots[op["x"]["slot"]],
+                                op["again_edit"])
+                    # (the caller's own edit is not the library's doing)
+                    held_args[:] = [(n_, o_, enc_full(o_) if n_ == "x"
+                                     else b_) for n_, o_, b_ in held_args]
+                    x2 = A("x2", op["x"])
+                    if op.get("residual"):
+                        r2 = md.residual(params, x2, y,
+                                         op.get("weight_cp", 5e-7))
+                    else:
+                        r2 = md.model(params, x2)
+                    out["ret"] = [out["ret"],
+                                  digest_array(np.asarray(r2))]
             elif kind == "features":
                 names = A("names", op["names"])
                 r = IndentationFeatures.compute_features(
@@ -3434,6 +3451,11 @@ def c10_gen_scenario(rng, sid):
                         "y": {"slot": s + "y"},
                         "residual": rng.random() < 0.6,
                         "weight_cp": rng.choice([0, 5e-7])})
+            if rng.random() < 0.4:
+                ops[-1]["again_edit"] = rng.choice(
+                    [{"kind": "array_scale", "factor": 0.5},
+                     {"kind": "array_set", "index": rng.randrange(40),
+                      "value": -2e-7}])
             if rng.random() < 0.5:
                 ops.append({"op": "mutate", "slot": s + "p",
                             "edit": rng.choice(pedits[:2])})
